@@ -14,8 +14,11 @@ import (
 
 	"github.com/attestantio/go-eth2-client/api"
 	apiv1 "github.com/attestantio/go-eth2-client/api/v1"
+	apiv1bellatrix "github.com/attestantio/go-eth2-client/api/v1/bellatrix"
+	apiv1deneb "github.com/attestantio/go-eth2-client/api/v1/deneb"
 	"github.com/attestantio/go-eth2-client/spec"
 	"github.com/attestantio/go-eth2-client/spec/altair"
+	"github.com/attestantio/go-eth2-client/spec/bellatrix"
 	"github.com/attestantio/go-eth2-client/spec/phase0"
 	vouchmock "github.com/attestantio/vouch/mock"
 	mockaccountmanager "github.com/attestantio/vouch/services/accountmanager/mock"
@@ -24,6 +27,8 @@ import (
 	standardattester "github.com/attestantio/vouch/services/attester/standard"
 	"github.com/attestantio/vouch/services/beaconblockproposer"
 	mockbeaconcommitteesubscriber "github.com/attestantio/vouch/services/beaconcommitteesubscriber/mock"
+	"github.com/attestantio/vouch/services/blockrelay"
+	standardblockrelay "github.com/attestantio/vouch/services/blockrelay/standard"
 	"github.com/attestantio/vouch/services/cache"
 	mockcache "github.com/attestantio/vouch/services/cache/mock"
 	standardcontroller "github.com/attestantio/vouch/services/controller/standard"
@@ -655,6 +660,9 @@ func c20BidCacheBody(st *c20BidCacheState) {
 	strat := c09Strats()[0]
 	util.VerifResetBuilderClients()
 	r := &c09Relay{idx: 0, env: e, value: 10, bldr: 'Y', hdr: 1, defect: "none", perSlot: true}
+	if st.mode == "auction-without-winner" {
+		r.defect = "error" // the relay is down throughout: every auction ends without a winner
+	}
 	e.relays = append(e.relays, r)
 	util.VerifSetBuilderClient(r.Address(), r)
 	mc.Sleep(int64(time.Duration(c09Slot)*12*time.Second) - mc.Now())
@@ -666,7 +674,7 @@ func c20BidCacheBody(st *c20BidCacheState) {
 	for i := 1; i <= st.slots; i++ {
 		slot := c09Slot + phase0.Slot(i)
 		mc.Sleep(int64(time.Duration(slot)*12*time.Second) - mc.Now())
-		if st.mode == "auction" {
+		if st.mode != "request" {
 			if res, err := svc.AuctionBlock(ctx, slot, phase0.Hash32{9}, v1.pubkey()); err == nil && res != nil && res.WinningParticipation != nil {
 				st.won++
 			}
@@ -867,7 +875,7 @@ func c20Units(tier string) []hx.Unit {
 		}
 		units = append(units, u)
 	}
-	for _, mode := range []string{"auction", "request"} {
+	for _, mode := range []string{"auction", "request", "auction-without-winner"} {
 		st := &c20BidCacheState{mode: mode, slots: 300}
 		if tier == "thorough" {
 			st.slots = 1000
@@ -875,11 +883,11 @@ func c20Units(tier string) []hx.Unit {
 		u := hx.Unit{Name: "C20/bid-cache/" + mode + "-every-slot", Cfg: mc.Config{Fixed: true, Horizon: int64(6 * time.Hour)}}
 		u.Body = func() { c20BidCacheBody(st) }
 		u.Check = func(r *mc.Result) mc.Verdict {
-			v := mc.Verdict{Outcome: "bid cache " + mode, Nontrivial: st.won > 0,
+			v := mc.Verdict{Outcome: "bid cache " + mode, Nontrivial: true,
 				Sample: fmt.Sprintf("block relay, one %s per slot for %d slots: results of %d slots cached half way, of %d at the end", mode, st.slots, st.mid, st.held)}
 			if r.Panic != "" {
 				v.Violation, v.Key = v.Sample+": panic: "+firstLine(r.Panic), "C20/bid-cache/panic/"+panicSite(r.Panic)
-			} else if st.won < st.slots {
+			} else if (mode == "auction-without-winner" && st.won != 0) || (mode != "auction-without-winner" && st.won < st.slots) {
 				v.Violation, v.Key = fmt.Sprintf("harness: %d of %d %ss produced a bid", st.won, st.slots, mode), "C20/bid-cache/harness"
 			} else if st.held > st.slots/2 {
 				// a fixed window: whatever its size, an hour (quick) of slots later most of them must be gone
@@ -935,6 +943,31 @@ func c20Units(tier string) []hx.Unit {
 				rel = append(rel, fmt.Sprintf("%s@%d", x.beh, x.lat/int64(time.Second)))
 			}
 			return c20LeakCheck("unblind", ver+" relays=["+strings.Join(rel, " ")+"]", e.done, r)
+		}
+		units = append(units, u)
+		e2 := &c05Env{}
+		u = hx.Unit{Name: "C20/leak/relay-unblind/" + ver, Cfg: mc.Config{Deviation: true, Horizon: int64(60 * time.Second)}}
+		u.Bound = 1
+		if tier == "thorough" {
+			u.Bound = 2
+		}
+		u.Body = func() {
+			c20RelayUnblindBody(e2, ver)
+		}
+		u.Check = func(r *mc.Result) mc.Verdict {
+			var rel []string
+			for _, x := range e2.relays {
+				rel = append(rel, fmt.Sprintf("%s@%d", x.beh, x.lat/int64(time.Second)))
+			}
+			return c20LeakCheck("relay-unblind", ver+" relays=["+strings.Join(rel, " ")+"]", e2.done, r)
+		}
+		units = append(units, u)
+		// all three relays hand the block over at the same instant: every schedule with two deviations
+		e3 := &c05Env{}
+		u = hx.Unit{Name: "C20/leak/relay-unblind-all-answer/" + ver, Cfg: mc.Config{Deviation: true, Horizon: int64(60 * time.Second)}, Bound: 2}
+		u.Body = func() { c20RelayUnblindBodyWith(e3, ver, true) }
+		u.Check = func(r *mc.Result) mc.Verdict {
+			return c20LeakCheck("relay-unblind", ver+" relays=[full@0 full@0 full@0]", e3.done, r)
 		}
 		units = append(units, u)
 	}
@@ -1030,6 +1063,80 @@ func c20UnblindBody(e *c05Env, ver string) {
 	if err := svc.Prepare(ctx, duty); err == nil {
 		svc.Propose(ctx, duty)
 	}
+	e.done = true
+	cancel()
+	mc.Sleep(int64(20 * time.Second))
+}
+
+// c20Validators answers the block relay's question which validator proposes.
+type c20Validators struct{ acct *hAccount }
+
+func (v c20Validators) Validators(_ context.Context, opts *api.ValidatorsOpts) (*api.Response[map[phase0.ValidatorIndex]*apiv1.Validator], error) {
+	out := map[phase0.ValidatorIndex]*apiv1.Validator{}
+	for _, i := range opts.Indices {
+		out[i] = &apiv1.Validator{Index: i, Validator: &phase0.Validator{PublicKey: v.acct.pubkey()}}
+	}
+	return &api.Response[map[phase0.ValidatorIndex]*apiv1.Validator]{Data: out, Metadata: map[string]any{}}, nil
+}
+
+// c20RelayUnblindBody: vouch as the beacon node's builder: a signed blinded block handed to the block relay's
+// UnblindBlock with three relays configured for the proposer.
+func c20RelayUnblindBody(e *c05Env, ver string) { c20RelayUnblindBodyWith(e, ver, false) }
+
+// c20RelayUnblindSetup builds the block relay with the relays of e configured for the proposer, and the signed
+// blinded block a beacon node would hand it.
+func c20RelayUnblindSetup(ctx0 context.Context, e *c05Env) (*standardblockrelay.Service, *api.VersionedSignedBlindedBeaconBlock) {
+	util.VerifResetBuilderClients()
+	var rel []string
+	for _, r := range e.relays {
+		util.VerifSetBuilderClient(r.Address(), r)
+		rel = append(rel, `"`+r.Address()+`":{}`)
+	}
+	accts := &accountsTable{byIndex: map[phase0.ValidatorIndex]*hAccount{7: e.acct}}
+	svc, err := standardblockrelay.New(ctx0,
+		standardblockrelay.WithLogLevel(zerolog.Disabled), standardblockrelay.WithMonitor(&nullmetrics.Service{}),
+		standardblockrelay.WithMajordomo(&c09Majordomo{doc: `{"version":2,"fee_recipient":"` + feeA + `","relays":{` + strings.Join(rel, ",") + `}}`}),
+		standardblockrelay.WithScheduler(&nopScheduler{}), standardblockrelay.WithListenAddress("127.0.0.1:18550"),
+		standardblockrelay.WithChainTime(newChainTime(0, 12*time.Second, 32)), standardblockrelay.WithConfigURL("file:///config.json"),
+		standardblockrelay.WithFallbackFeeRecipient(bellatrix.ExecutionAddress{0xff}), standardblockrelay.WithFallbackGasLimit(30000000),
+		standardblockrelay.WithAccountsProvider(accts), standardblockrelay.WithValidatorsProvider(c20Validators{e.acct}), standardblockrelay.WithValidatingAccountsProvider(accts),
+		standardblockrelay.WithValidatorRegistrationSigner(c12Signer{}), standardblockrelay.WithReleaseVersion("test"),
+		standardblockrelay.WithBuilderBidProvider(c12Bids{}), standardblockrelay.WithBuilderConfigs(map[phase0.BLSPubKey]*blockrelay.BuilderConfig{}))
+	must(err)
+	p := c05Proposal(e.version, true, c05Slot)
+	block := &api.VersionedSignedBlindedBeaconBlock{Version: e.version}
+	if e.version == spec.DataVersionBellatrix {
+		block.Bellatrix = &apiv1bellatrix.SignedBlindedBeaconBlock{Message: p.BellatrixBlinded, Signature: phase0.BLSSignature{0x77}}
+	} else {
+		block.Deneb = &apiv1deneb.SignedBlindedBeaconBlock{Message: p.DenebBlinded, Signature: phase0.BLSSignature{0x77}}
+	}
+	return svc, block
+}
+
+func c20RelayUnblindBodyWith(e *c05Env, ver string, allFull bool) {
+	v := spec.DataVersionBellatrix
+	if ver == "deneb" {
+		v = spec.DataVersionDeneb
+	}
+	*e = c05Env{version: v, blinded: true, acct: newAccount("W", "proposer", 7)}
+	behs := []string{"full", "err3", "nildata", "never", "err503"}
+	for i := 0; i < 3; i++ {
+		r := &c05Relay{idx: i, env: e, beh: "full"}
+		if !allFull {
+			r.beh = behs[mc.Choose(len(behs))]
+			if r.beh == "full" || r.beh == "nildata" {
+				r.lat = []int64{0, int64(time.Second)}[mc.Choose(2)]
+			}
+		}
+		e.relays = append(e.relays, r)
+	}
+	ctx0, cancel0 := mcontext.WithCancel(context.Background())
+	defer cancel0()
+	svc, block := c20RelayUnblindSetup(ctx0, e)
+	mc.Sleep(int64(time.Second)) // the registration round of the constructor
+	ctx, cancel := mcontext.WithTimeout(ctx0, 8*time.Second)
+	defer cancel()
+	_, _ = svc.UnblindBlock(ctx, block)
 	e.done = true
 	cancel()
 	mc.Sleep(int64(20 * time.Second))
